@@ -549,6 +549,7 @@ class BlockNet(Engine):
         blk, do_pow = self._build(a, chain, check_time)
         payload = None
         obj = None
+        r_ = a['r']
         rules = [x for x in (a['rule'], a['rule2']) if x and x != 'none']
         via = a['via']
         if 'merkle-wrong' in rules or not blk['txs']:
@@ -580,6 +581,17 @@ class BlockNet(Engine):
                     ctx.fault('templates-edited-after-block-was-built')
                 else:
                     obj = conv.block_from_spec(blk, a['mutable_txs'])
+                    if not a['mutable_txs'] and r_[1] % 3 == 0 and blk['txs']:
+                        # inputs whose outpoints are held in mixed flavours (every second one a CMutableOutPoint inside an
+                        # immutable input: an application that edits a copy and appends fresh inputs ends up there) -
+                        # equal values must stay equal for every rule that compares outpoints
+                        C = self.C
+                        vtx = []
+                        for t in obj.vtx:
+                            vin = [C.CTxIn(C.CMutableOutPoint(i.prevout.hash, i.prevout.n) if (j + r_[1]) % 2 else i.prevout, i.scriptSig, i.nSequence) for j, i in enumerate(t.vin)]
+                            vtx.append(C.CTransaction(vin, t.vout, t.nLockTime, t.nVersion, t.wit))
+                        obj = C.CBlock(obj.nVersion, obj.hashPrevBlock, obj.hashMerkleRoot, obj.nTime, obj.nBits, obj.nNonce, vtx)
+                        ctx.fault('outpoints-held-in-mixed-flavours')
             except Exception as e:
                 ctx.check(False, 'C16.accept-valid', 'constructing the block object raised %s: %s' % (type(e).__name__, e), rule=a['rule'])
                 return
